@@ -69,7 +69,7 @@ add("C03", "exploration",
 
 
 add("C01", "exploration",
-    "Generated ordered pairs of valid geometries (all 7x7 type pairs, overlapping collection members, empties) on triangulated integer grids that coincide, are offset by half a cell or shifted, under an injective integer map (optionally an exact dyadic affine image), a hole-nesting family, and a general-position float family (random 53-bit mantissas in a window: crossing points are not representable, the library must round its nodes), and a concurrent family (3..14 integer segments through one non-lattice point); repeated consecutive vertices; every operation repeated on the same operands carrying Z/M/ZM payload; UnionMany lists of up to 50 operands. An exact rational arrangement of both operands gives, for every vertex, sub-edge and slab trapezoid, its membership in A and B; the expected result of each operation is the closed Boolean combination of those cells with its exact area, remainder length and isolated-point count. Every library result (Union, Intersection, Difference both orders, SymmetricDifference, argument orders swapped, UnaryUnion, Union(x,x), UnionMany) must be error-free, valid (oracle and Validate), contain exactly the expected face probes, have every expected remainder edge/point within tau, match the three measures and have the canonical shape. Because every operation is compared with the same exact point set, the Boolean-algebra laws hold as a consequence.",
+    "Generated ordered pairs of valid geometries (all 7x7 type pairs, overlapping collection members, empties) on triangulated integer grids that coincide, are offset by half a cell or shifted, under an injective integer map (optionally an exact dyadic affine image), a hole-nesting family, and a general-position float family (random 53-bit mantissas in a window: crossing points are not representable, the library must round its nodes), and a concurrent family (3..14 integer segments through one non-lattice point); repeated consecutive vertices; every operation repeated on the same operands carrying Z/M/ZM payload; UnionMany lists of up to 50 operands. An exact rational arrangement of both operands gives, for every vertex, sub-edge and slab trapezoid, its membership in A and B; the expected result of each operation is the closed Boolean combination of those cells with its exact area, remainder length and isolated-point count. Every library result (Union, Intersection, Difference both orders, SymmetricDifference, argument orders swapped, UnaryUnion, Union(x,x), UnionMany) must be error-free, valid (oracle and Validate), contain exactly the expected face probes, have every expected remainder edge/point within tau, match the three measures and have the canonical shape. Because every operation is compared with the same exact point set, the Boolean-algebra laws hold as a consequence. Enumerated: MultiLineString / MultiPolygon operands of 130 members in a row against a line / polygon meeting one of the last two.",
     "Trusted: exact kernel (internal/exact). Strict domain (exact clearance >= 1e-6 x magnitude) only; probes closer than tau = 1e-9 x magnitude to an arrangement edge are skipped and counted.",
     "property-based testing (rapid) vs an exact-arithmetic arrangement oracle",
     "DESIGN.md C01")
